@@ -200,6 +200,7 @@ def generated(rng) -> list[tuple[Any, Any, str]]:
                 return b.IntegerAttr.from_int_and_width(v, w) if hasattr(b.IntegerAttr, "from_int_and_width") else b.IntegerAttr(v, w)
             makers.append((f"IntegerAttr({v},i{w})", mk))
         makers.append((f"IntegerAttr({v},index)", lambda v=v: b.IntegerAttr(v, b.IndexType())))
+        makers.append((f"IntegerAttr(IntAttr({v}),index)", lambda v=v: b.IntegerAttr(b.IntAttr(v), b.IndexType())))
     for s in ("", "a", "A", "a ", "é", "é", "\x00", "a\nb", '"', "\\", "0", "0.0"):
         makers.append((f"StringAttr({s!r})", lambda s=s: b.StringAttr(s)))
         makers.append((f"BytesAttr({s!r})", lambda s=s: b.BytesAttr(s.encode())))
@@ -250,6 +251,27 @@ def generated(rng) -> list[tuple[Any, Any, str]]:
     for label, mk in makers:
         try:
             out.append((mk(), mk(), label))
+        except Exception:  # noqa: BLE001
+            continue
+    # the same parameters through another constructor path (wrapped vs plain payload, list vs tuple, width vs type)
+    for w in (1, 8, 32, 64):
+        for v in (0, 1, -1, 2 ** (w - 1), 2 ** w - 1, 2 ** (w - 1) - 1, -(2 ** (w - 1))):
+            try:
+                t = b.IntegerType(w)
+                out.append((b.IntegerAttr(v, t), b.IntegerAttr(b.IntAttr(v), t), f"IntegerAttr({v}, i{w}) from int / from IntAttr"))
+                out.append((b.IntegerAttr(v, w), b.IntegerAttr(v, t), f"IntegerAttr({v}, {w}) from width / from type"))
+            except Exception:  # noqa: BLE001
+                continue
+    for mk1, mk2, label in ((lambda: b.ArrayAttr([b.IntAttr(1)]), lambda: b.ArrayAttr((b.IntAttr(1),)), "ArrayAttr from list / tuple"),
+                            (lambda: b.StringAttr("a"), lambda: b.StringAttr.get("a"), "StringAttr() / .get"),
+                            (lambda: b.FloatAttr(1.0, 32), lambda: b.FloatAttr(1.0, b.f32), "FloatAttr from width / type"),
+                            (lambda: b.FloatAttr(1, b.f32), lambda: b.FloatAttr(1.0, b.f32), "FloatAttr from int / float"),
+                            (lambda: b.SymbolRefAttr("a"), lambda: b.SymbolRefAttr(b.StringAttr("a")), "SymbolRefAttr from str / StringAttr"),
+                            (lambda: b.TensorType(b.f32, [2, 3]), lambda: b.TensorType(b.f32, (2, 3)), "TensorType shape list / tuple"),
+                            (lambda: b.DenseArrayBase.from_list(b.i32, [1, 2]), lambda: b.DenseArrayBase.from_list(b.i32, (1, 2)), "DenseArrayBase list / tuple"),
+                            (lambda: b.DictionaryAttr({"a": b.IntAttr(1)}), lambda: b.DictionaryAttr(dict(a=b.IntAttr(1))), "DictionaryAttr literal / dict()")):
+        try:
+            out.append((mk1(), mk2(), label))
         except Exception:  # noqa: BLE001
             continue
     # attributes parsed from text in different contexts (registered and unregistered ones)
